@@ -1153,4 +1153,24 @@ m('c18-twin-mul-rsqrt', 'C18', 'neutral', WH, SR,
 m('c18-twin-sign-order', 'C18', 'neutral', WH, ISR, "w = walsh_hadamard_transform(x) * rademacher / jnp.sqrt(x.size)",
   "w = rademacher * walsh_hadamard_transform(x) / jnp.sqrt(x.size)")
 
+# ---------------------------------------------------------------- from seeded changes (see /verif/seeded)
+m('seed-c07-skip-zero-weights', 'C07', 'break', AGG, 'mean_aggregator.apply',
+  "params_and_weights = map(extract_params_and_weight, clients_params_and_weights)",
+  "params_and_weights = ((param, weight) for _, param, weight in clients_params_and_weights if weight > 0)", expect='R-WMEAN.agg')
+m('seed-c19-retry-swallows', 'C19', 'break', DL, 'maybe_download', "fo.write(r.raw.read(block_size))",
+  "for _ in range(3):\n  try:\n    fo.write(r.raw.read(block_size))\n    break\n  except IOError as e:\n    log(f'retry {e!r}')",
+  expect='R-ATOMIC.swallow')
+m('seed-c19-retry-reraises-twin', 'C19', 'neutral', DL, 'maybe_download', "fo.write(r.raw.read(block_size))",
+  "for _ in range(3):\n  try:\n    fo.write(r.raw.read(block_size))\n    break\n  except IOError as e:\n    log(f'retry {e!r}')\nelse:\n  raise IOError('download failed')")
+m('seed-c19-stream-decompress-no-eof', 'C19', 'break', DL, 'maybe_lzma_decompress',
+  "with lzma.open(path, 'rb') as fi:\n  with open(decompressed_path + '.partial', 'wb') as fo:\n    shutil.copyfileobj(fi, fo)",
+  "decompressor = lzma.LZMADecompressor()\nwith open(path, 'rb') as fi:\n  with open(decompressed_path + '.partial', 'wb') as fo:\n    for block in iter(lambda: fi.read(1 << 20), b''):\n      fo.write(decompressor.decompress(block))",
+  expect='R-ATOMIC.eof')
+m('seed-c19-stream-decompress-eof-twin', 'C19', 'neutral', DL, 'maybe_lzma_decompress',
+  "with lzma.open(path, 'rb') as fi:\n  with open(decompressed_path + '.partial', 'wb') as fo:\n    shutil.copyfileobj(fi, fo)",
+  "decompressor = lzma.LZMADecompressor()\nwith open(path, 'rb') as fi:\n  with open(decompressed_path + '.partial', 'wb') as fo:\n    for block in iter(lambda: fi.read(1 << 20), b''):\n      fo.write(decompressor.decompress(block))\nif not decompressor.eof:\n  raise EOFError('truncated')")
+m('seed-c07-twin-iter-first', 'C07', 'neutral', TU, 'tree_sum',
+  "for pytree in pytrees:\n  if pytree_sum is None:\n    pytree_sum = jax.tree_util.tree_map(jnp.array, pytree)\n  else:\n    pytree_sum = _tree_add_eq(pytree_sum, pytree)",
+  "for pytree in iter(pytrees):\n  if pytree_sum is None:\n    pytree_sum = jax.tree_util.tree_map(jnp.array, pytree)\n  else:\n    pytree_sum = _tree_add_eq(pytree_sum, pytree)")
+
 _E[:] = [e for e in _E if e is not None]
